@@ -9,6 +9,7 @@ mod pwstr;
 mod c05;
 mod c16;
 mod c11;
+mod c06;
 
 #[global_allocator]
 static GLOBAL: c04::Counting = c04::Counting;
@@ -36,6 +37,8 @@ fn main() {
         "C05" => c05::run(&mut out, tier, seed),
         "C16" => c16::run(&mut out, tier, seed),
         "C11" => c11::run(&mut out, tier, seed),
+        "C06" => c06::run_c06(&mut out, tier, seed),
+        "C13" => c06::run_c13(&mut out, tier, seed),
         _ => { eprintln!("unknown property {}", prop); std::process::exit(2); }
     }
     out.finish(prop, tier, seed);
